@@ -10,7 +10,7 @@ DIGITS = [ord(ch) for ch in '0123456789ABCDEF']
 REQ_WIRES = ['ready', 'index_in', 'v_in', 'index_out', 'set_index_in', 'set_v_in', 'set_index_out', 'clk_pulse', 'start_resp']
 STROBES = ['set_index_in', 'set_v_in', 'set_index_out', 'clk_pulse', 'start_resp']
 REQ_CTOR = ['ready', 'valid', 'c', 'index_in', 'v_in', 'index_out', 'set_index_in', 'set_v_in', 'set_index_out', 'clk_pulse', 'start_resp']
-MIN_K = 1          # smallest response size exercised by the sweeps; set to 0 by c20.run when the size-0 probe answers '=!' (C20-F1 repaired)
+MIN_K = 0          # smallest response size exercised by the sweeps (size 0 answers '=!' since /repo c870d83)
 REQ_STATE = ['state', 'cur_type', 'new_c', 'temp']
 RESP_STATE = ['state', 'temp', 'temp_size', 'aux']
 
